@@ -2,6 +2,7 @@ package main
 
 import (
 	"fmt"
+	"os"
 	"go/ast"
 	"go/token"
 	"go/types"
@@ -119,6 +120,9 @@ func VerifyFunction(p *Program, db *ContractDB, fc *FnContract) *FnResult {
 	for pass := 0; ; pass++ {
 		res := verifyFunctionPass(p, db, fc, pre, preTypes)
 		x := res.Exec
+		if os.Getenv("GOVC_DEBUG") != "" && x != nil {
+			fmt.Fprintf(os.Stderr, "pass %d of %s: %d regions, %d frame evaluations, fewest regions at a frame evaluation %d\n", pass, fc.Name, len(x.regionSort), x.frameEvals, x.minRegionsAtFrame)
+		}
 		if x == nil || pass >= 2 || x.frameEvals == 0 || len(x.regionSort) <= x.minRegionsAtFrame {
 			return res
 		}
